@@ -109,6 +109,8 @@ def _get(i):
 
 def params_of(ref):
     kind, k = ref
+    if kind == "explicit":
+        return k
     if kind == "two":
         return gens.two_bloc_params(_TIER[0])[k]
     if kind == "one":
